@@ -189,18 +189,17 @@ def generate(ctx):
         for f in corpus(names):
             cases.append(make_case(rng, f, names, flag(), maxlen))
     small = G.small_formulas(NAME_SETS[0][:2] + ('r',))
-    if not ctx.thorough:
-        small = rng.sample(small, 220)
+    small = rng.sample(small, 700 if ctx.thorough else 220)
     for f in small:
         cases.append(make_case(rng, f, NAME_SETS[0], flag(), maxlen))
-    n_rand = 520 if ctx.thorough else 110
+    n_rand = 360 if ctx.thorough else 110
     for i in range(n_rand):
         names = NAME_SETS[i % len(NAME_SETS)]
         d = (2, 3, 4, 4)[i % 4]
         f = G.gen(rng, d, names)
         cases.append(make_case(rng, f, names, flag(), maxlen))
     # formulas over arithmetic comparisons (opaque atoms)
-    n_atom = 120 if ctx.thorough else 36
+    n_atom = 80 if ctx.thorough else 36
     for i in range(n_atom):
         names, text = atom_symbols(ATOM_SETS[i % len(ATOM_SETS)])
         if i < 2 * len(ATOM_SETS):
@@ -211,7 +210,7 @@ def generate(ctx):
             f = G.gen(rng, (2, 3, 4)[i % 3], names)
         cases.append(make_case(rng, f, names, flag(), maxlen, atoms=text))
     # formulas with future operators
-    n_mixed = 160 if ctx.thorough else 40
+    n_mixed = 120 if ctx.thorough else 40
     tries = 0
     while n_mixed and tries < 5000:
         tries += 1
@@ -236,7 +235,7 @@ def generate(ctx):
 def run_cases(ctx, cases, maxlen):
     args = [(c, maxlen) for c in cases]
     if len(cases) > 64:
-        n = 8 if ctx.thorough else 4
+        n = 12 if ctx.thorough else 4
         with multiprocessing.get_context('fork').Pool(n) as pool:
             return pool.map(_work, args, chunksize=8)
     return [_work(a) for a in args]
